@@ -745,7 +745,7 @@ func propTable() map[string]*PropSpec {
 		tvcr.RequireReach = nil
 		q := []RunConfig{tv, tvc, tvcr, tn, tn0, hf, bl, mkV(2, 1), mkV(3, 2), mkN(1, -1), mkN(1, 2), mkP(2), mkP(1), mkX(0, 3), mkX(3, 0), mkX(0, 2)}
 		th := append([]RunConfig{}, q...)
-		th = append(th, mkV(3, 1), mkV(2, 2), mkN(0, -1), mkN(2, -1), mkN(1, 0), mkN(1, 3), mkN(2, 2), mkP(3), mkX(2, 0), mkX(2, 3), mkX(3, 2))
+		th = append(th, mkV(3, 1), mkV(2, 2), mkN(0, -1), mkN(2, -1), mkN(1, 0), mkN(1, 3), mkN(2, 0), mkP(3), mkX(2, 0), mkX(2, 3), mkX(3, 2)) // (two symbolic proof-carrying votes with 2 PREPARE senders each: 58 k paths and not finished in 25 min; outside)
 		for _, me := range []int{0, 1, 2} {
 			c := rc(fmt.Sprintf("C07_HighestProof/me=%d", me), ".", "C07_HighestProof", map[string]int{"me": me})
 			c.RequireReach = []string{"C07.hp.highest_proposed"}
